@@ -166,8 +166,10 @@ static const SortRule SYM_SORT[4] = {SortRule::LargestAlge, SortRule::LargestMag
 static void oracle_pencil(const GSubject& S, const OpDesc& op, const Obs& o, Reporter& R)
 {
     Local& L = R.L;
-    const long k = o.evals.size();
-    if (o.evecs.cols() != k || k == 0) return;
+    // pairs = the values with their columns; every returned column takes part in the orthonormality clause, also when the
+    // accessor hands back more columns than values (the count mismatch itself is C05's clause)
+    const long k = std::min<long>(o.evals.size(), o.evecs.cols()), kc = o.evecs.cols();
+    if (kc == 0) return;
     const LD u = S.eps, eps23 = std::pow(u, LD(2) / 3);
     const MatL X = o.evecs.real();
     if (!all_finite(X) || !all_finite(o.evals)) { R.v("nonfinite", "NaN/Inf in the returned pairs"); return; }
@@ -189,7 +191,7 @@ static void oracle_pencil(const GSubject& S, const OpDesc& op, const Obs& o, Rep
         L.ratio("pencil_residual", r / bound);
         if (!(r <= bound)) R.v("pencil-residual", "pair " + num(i) + " lambda=" + gnum(lam) + " ||A x - lambda B x||=" + gnum(r) + " bound=" + gnum(bound) + " info=" + info_name(o.info));
     }
-    const LD g = maxabs(MatL(X.transpose() * P * X - MatL::Identity(k, k))), gb = 1e4L * u * S.condP;
+    const LD g = maxabs(MatL(X.transpose() * P * X - MatL::Identity(kc, kc))), gb = 1e4L * u * S.condP;
     L.ratio("B_orthonormal", g / gb);
     if (!(g <= gb)) R.v("B-orthonormal", "max|X'PX - I|=" + gnum(g) + " bound=" + gnum(gb));
 }
